@@ -91,7 +91,9 @@ func (m *Module) HandleDagazQuadSample(ctx context.Context, msg hwebsocket.Msg) 
 			continue
 		}
 		quad := NewQuadFromProtobuf(newQuad)
+		m.state.Mutex.Lock()
 		m.state.SpatialPartition.InsertQuad(quad)
+		m.state.Mutex.Unlock()
 	}
 
 	return nil
@@ -113,7 +115,14 @@ func (m *Module) HandleDagazGetGroundPlane(ctx context.Context, respond hwebsock
 	var quadHit *Quad
 	if req.Ray != nil && isFinitePoint(req.Ray.From) && isFinitePoint(req.Ray.To) {
 		ray := NewRayFromProtobuf(req.Ray)
-		quadHit, _ = m.state.SpatialPartition.IntersectQuad(ray)
+		m.state.Mutex.Lock()
+		if hit, _ := m.state.SpatialPartition.IntersectQuad(ray); hit != nil {
+			// copy: the stored plane may be merged by another participant
+			// once the lock is released
+			hitCopy := *hit
+			quadHit = &hitCopy
+		}
+		m.state.Mutex.Unlock()
 	}
 
 	if quadHit == nil {
@@ -149,6 +158,7 @@ func (m *Module) HandleDagazGetRegion(ctx context.Context, respond hwebsocket.Re
 	}
 
 	var regionQuads []*Quad
+	m.state.Mutex.Lock()
 	if isFinitePoint(req.Min) && isFinitePoint(req.Max) {
 		regionQuads = m.state.SpatialPartition.GetRegion(NewVector3fFromProtobuf(req.Min), NewVector3fFromProtobuf(req.Max))
 	}
@@ -156,6 +166,7 @@ func (m *Module) HandleDagazGetRegion(ctx context.Context, respond hwebsocket.Re
 	for i := 0; i < len(regionQuads); i++ {
 		regionQuadsProtobuf[i] = regionQuads[i].ToProtobuf()
 	}
+	m.state.Mutex.Unlock()
 
 	respond.Send(&dagazpb.DagazGetRegionResponse{
 		Type:      dagazpb.MsgType_MSG_TYPE_DAGAZ_GET_REGION_RESPONSE,
@@ -179,7 +190,9 @@ func (m *Module) HandleDagazGetDebugInfo(ctx context.Context, respond hwebsocket
 			WithTag("msg_type", msg.Type)
 	}
 
+	m.state.Mutex.Lock()
 	debugInfo := m.state.SpatialPartition.GetDebugInfo()
+	m.state.Mutex.Unlock()
 
 	respond.Send(&dagazpb.DagazGetDebugInfoResponse{
 		Type:           dagazpb.MsgType_MSG_TYPE_DAGAZ_GET_DEBUG_INFO_RESPONSE,
